@@ -440,12 +440,13 @@ func ShowGot(got []interface{}) string {
 	return vs.String()
 }
 
-// IntegerArgsPK tells whether the table has the shape of a listed known
-// finding: a table (rowid, or WITHOUT ROWID where the same rule decides when
+// IntegerArgsPK tells whether the table has a shape that used to be a listed
+// known finding (repaired by def0057; now only counted as a coverage class):
+// a table (rowid, or WITHOUT ROWID where the same rule decides when
 // the key's index is numbered) whose single-column primary key is declared with a
 // type INTEGER followed by arguments, e.g. `a INTEGER(10) PRIMARY KEY`. SQLite
 // does not make such a column a rowid alias (the declared type is not exactly
-// "INTEGER"); sqlittle's parser drops the arguments and treats it as one.
+// "INTEGER"); sqlittle's parser dropped the arguments and treated it as one.
 func IntegerArgsPK(tb sqlgen.Table) bool {
 	for _, c := range tb.Cols {
 		ty := strings.ToUpper(strings.TrimSpace(c.Type))
@@ -475,9 +476,6 @@ func IntegerArgsPK(tb sqlgen.Table) bool {
 	}
 	return false
 }
-
-// KnownIntegerArgs is the signature of that finding.
-const KnownIntegerArgs = "integer-with-type-arguments-taken-as-rowid-alias"
 
 // KnownRawDefault is the signature of the listed finding about DEFAULT values.
 const KnownRawDefault = "short-row-default-raw-literal"
